@@ -185,6 +185,17 @@ pub fn check_case(c0: &Case) -> Verdict {
             return v;
         }
     };
+    // whatever the relation: a result is text, line by line, without bytes that were never written
+    for (which, d, cmd) in [("first", &da, a), ("second", &db, &b)] {
+        if let Some(p) = d.iter().position(|&x| x == 0) {
+            v.fail("nul-bytes-in-output", format!("{:?}: the {} run's output holds a NUL byte at offset {} of {}", cmd.args("IN", Some("ALT"), "OUT"), which, p, d.len()));
+            return v;
+        }
+        if let Err(e) = io::lines_strict(d) {
+            v.fail("malformed-output", format!("{:?}: the {} run's output: {}", cmd.args("IN", Some("ALT"), "OUT"), which, e));
+            return v;
+        }
+    }
     let what = format!("{:?} vs {:?}", a.args("IN", Some("ALT"), "OUT"), if c.rel == Rel::Library { vec!["<library>".to_string()] } else { b.args("IN", Some("ALT"), "OUT") });
     match &c.rel {
         Rel::Library => {
